@@ -13,6 +13,8 @@ use serde_json::json;
 
 #[derive(Clone, Copy, Debug, PartialEq, Eq, Hash, Serialize, Deserialize)]
 pub enum Entry {
+    /// 0: default options; 1: ReadHeaderButUseProvided(Some(true length)); 2: ReadHeaderButUseProvided(None)
+    LzmaDecompressOpt(u8),
     LzmaDecompress,
     Lzma2Decompress,
     XzDecompress,
@@ -30,6 +32,8 @@ pub enum Fault {
     SinkAtShort { k: usize, max: usize },
     /// k-th source call (read / fill_buf) fails; sticky = all later calls fail too
     SourceAt { k: usize, sticky: bool },
+    /// k-th source call fails with ErrorKind::Interrupted (transient, retryable by convention)
+    SourceInterrupted { k: usize },
     /// sink accepts only part of each write
     ShortWrites(Vec<usize>),
     FlushFail,
@@ -69,6 +73,10 @@ struct Outcome {
 }
 
 fn run_entry(c: &Case, sink: &SinkCfg, fail_read: Option<(usize, bool)>) -> Outcome {
+    run_entry_ext(c, sink, fail_read, false, None)
+}
+
+fn run_entry_ext(c: &Case, sink: &SinkCfg, fail_read: Option<(usize, bool)>, interrupted: bool, true_len: Option<u64>) -> Outcome {
     let reader = ReaderKind::Chunky {
         pattern: c.pattern.clone(),
         stops: vec![],
@@ -77,9 +85,19 @@ fn run_entry(c: &Case, sink: &SinkCfg, fail_read: Option<(usize, bool)>) -> Outc
         sink: sink.clone(),
         fail_read_at: fail_read.map(|(k, _)| k),
         fail_read_sticky: fail_read.map(|(_, s)| s).unwrap_or(false),
+        fail_read_interrupted: interrupted,
+        interrupt_burst: None,
     };
     let r = match c.entry {
         Entry::LzmaDecompress => sut::lzma_decompress(&c.data, &Opts::default(), &reader, &io),
+        Entry::LzmaDecompressOpt(o) => {
+            let opts = match o % 3 {
+                0 => Opts::default(),
+                1 => Opts::with(sut::USize::ReadHeaderButUseProvided(true_len.or(header_size(&c.data)))),
+                _ => Opts::with(sut::USize::ReadHeaderButUseProvided(None)),
+            };
+            sut::lzma_decompress(&c.data, &opts, &reader, &io)
+        }
         Entry::Lzma2Decompress => sut::lzma2_decompress(&c.data, &reader, &io),
         Entry::XzDecompress => sut::xz_decompress(&c.data, &reader, &io),
         Entry::LzmaCompress(o) => {
@@ -117,6 +135,19 @@ fn run_entry(c: &Case, sink: &SinkCfg, fail_read: Option<(usize, bool)>) -> Outc
     }
 }
 
+/// size field of a 13-byte .lzma header (None = all ones)
+fn header_size(d: &[u8]) -> Option<u64> {
+    if d.len() < 13 {
+        return None;
+    }
+    let v = u64::from_le_bytes(d[5..13].try_into().unwrap());
+    if v == u64::MAX {
+        None
+    } else {
+        Some(v)
+    }
+}
+
 impl Property for C12 {
     type Abs = Abs;
     type Case = Case;
@@ -130,14 +161,14 @@ impl Property for C12 {
         true
     }
     fn cases(&self, tier: Tier) -> u32 {
-        tier.pick(8_000, 80_000)
+        tier.pick(4_000, 40_000)
     }
     fn strategy(&self, _tier: Tier) -> BoxedStrategy<Abs> {
         let base = prop_oneof![
             // small outputs, and outputs several times a 4096-byte window (so that the
             // circular window is flushed to the sink in mid-stream)
-            3 => abs_lzma_file(20, 10, 1500).prop_map(|mut f| { f.h13 = true; AbsBase::Lzma(f) }),
-            2 => (abs_lzma_file(20, 20, 30_000), 16u16..80, any::<u16>()).prop_map(|(mut f, k, dsel)| {
+            12 => abs_lzma_file(20, 10, 1500).prop_map(|mut f| { f.h13 = true; AbsBase::Lzma(f) }),
+            8 => (abs_lzma_file(20, 20, 30_000), 16u16..80, any::<u16>()).prop_map(|(mut f, k, dsel)| {
                 f.h13 = true;
                 f.dict = f.dict.min(4097);
                 f.prog.insert(0, crate::gen::program::AbsOp::Lit(crate::gen::program::LitKind::Given, k as u8));
@@ -148,8 +179,28 @@ impl Property for C12 {
                 });
                 AbsBase::Lzma(f)
             }),
-            3 => abs_chunks(4, 10, 10, false).prop_map(AbsBase::Lzma2),
-            3 => abs_xz(3, 2, 8, 600).prop_map(AbsBase::Xz),
+            12 => abs_chunks(4, 10, 10, false).prop_map(AbsBase::Lzma2),
+            12 => abs_xz(3, 2, 8, 600).prop_map(AbsBase::Xz),
+            1 => (abs_xz(1, 1, 4, 3 << 20), 5000u16..9000, any::<u16>()).prop_map(|(mut x, k, dsel)| {
+                // one block decompressing to more than 1 MiB
+                use crate::gen::lzma2::AbsChunk;
+                use crate::gen::program::{AbsOp, LitKind};
+                use crate::refmodel::model::Props;
+                if let Some(b) = x.blocks.first_mut() {
+                    b.chunks = vec![AbsChunk::Lzma {
+                        reset: 3,
+                        props: Props::new(3, 0, 2),
+                        lead: 0,
+                        exact64k: 0,
+                        prog: vec![
+                            AbsOp::Lit(LitKind::Given, k as u8),
+                            AbsOp::Lit(LitKind::Noise, 1),
+                            AbsOp::Run { k, op: Box::new(AbsOp::Match { dclass: 6, dsel, lclass: 6, lsel: 0 }) },
+                        ],
+                    }];
+                }
+                AbsBase::Xz(x)
+            }),
         ];
         (
             0u8..14,
@@ -185,6 +236,12 @@ impl Property for C12 {
             (_, 3) => (Entry::Lzma2Compress, a.plain.clone()),
             (_, 4) | (_, 5) => (Entry::XzCompress, a.plain.clone()),
             (AbsBase::Lzma(_), s) if s % 2 == 0 => (Entry::Stream, build_base(&a.base)),
+            (AbsBase::Lzma(_), s) if s % 4 == 3 => {
+                let d = build_base(&a.base);
+                // option 2 (no size in effect) only for streams that carry an end marker
+                let o = if header_size(&d).is_none() { 2 } else { 1 };
+                (Entry::LzmaDecompressOpt(o), d)
+            }
             (AbsBase::Lzma(_), _) => (Entry::LzmaDecompress, build_base(&a.base)),
             (AbsBase::Lzma2(_), _) => (Entry::Lzma2Decompress, build_base(&a.base)),
             (AbsBase::Xz(_), _) => (Entry::XzDecompress, build_base(&a.base)),
@@ -209,6 +266,9 @@ impl Property for C12 {
             ("fault:source", 20_000 * k),
             ("fault:short-writes", 3000 * k),
             ("fault:flush", 1000 * k),
+            ("fault:source interrupted", 20_000 * k),
+            ("entry:LzmaDecompressOpt", 50 * k),
+            ("xz block output > 1 MiB", 20 * k),
             ("entry:Stream", 100 * k),
             ("entry:XzCompress", 100 * k),
             ("entry:LzmaDecompress", 100 * k),
@@ -235,14 +295,17 @@ impl Property for C12 {
         let ename = format!("{:?}", c.entry);
         let ename = ename.split('(').next().unwrap().to_string();
         st.class(&format!("entry:{}", ename));
-        if matches!(c.entry, Entry::LzmaDecompress | Entry::Stream) && w >= 2 {
+        if c.entry == Entry::XzDecompress && good.len() > (1 << 20) {
+            st.class("xz block output > 1 MiB");
+        }
+        if matches!(c.entry, Entry::LzmaDecompress | Entry::LzmaDecompressOpt(_) | Entry::Stream) && w >= 2 {
             st.class("lzma window flushed mid-stream (>=2 sink writes)");
         }
         st.sample(&ename, || {
             json!({"entry": format!("{:?}", c.entry), "input": hex_prefix(&c.data, 32), "input_len": c.data.len(), "source_pattern": c.pattern,
                    "fault_free": format!("{} sink writes, {} source calls, {} flushes, {} output bytes", w, r, clean.flushes, good.len())})
         });
-        let is_decoder = matches!(c.entry, Entry::LzmaDecompress | Entry::Lzma2Decompress | Entry::Stream);
+        let is_decoder = matches!(c.entry, Entry::LzmaDecompress | Entry::LzmaDecompressOpt(_) | Entry::Lzma2Decompress | Entry::Stream);
         if is_decoder && clean.flushed_total != clean.total {
             return Judgement::violation(
                 "no-final-flush",
@@ -278,6 +341,7 @@ impl Property for C12 {
                 faults.push(Fault::SinkAt(k));
             }
             for k in positions(r) {
+                faults.push(Fault::SourceInterrupted { k });
                 faults.push(Fault::SourceAt { k, sticky: false });
                 if k % 3 == 0 {
                     faults.push(Fault::SourceAt { k, sticky: true });
@@ -297,7 +361,40 @@ impl Property for C12 {
         }
         for f in faults {
             st.eval();
+            if let Fault::SourceInterrupted { k } = &f {
+                // Interrupted is retryable by convention: the call may report it (Err) or retry
+                // (Ok with the complete, identical output) - never Ok with anything else
+                let o = run_entry_ext(c, &SinkCfg::default(), Some((*k, false)), true, None);
+                st.class("fault:source interrupted");
+                if *k >= 1 {
+                    st.nontrivial(&(dh, &f));
+                }
+                let bad = match &o.verdict {
+                    Verdict::Ok => o.out != good,
+                    Verdict::Err(_) => !(o.out.len() <= good.len() && o.out[..] == good[..o.out.len()]),
+                    Verdict::Panic(_) => true,
+                };
+                if bad {
+                    c.focus = Some(f.clone());
+                    return Judgement::violation(
+                        format!("interrupted-read-mishandled:{}", ename),
+                        format!(
+                            "{:?} on input({}B)={} source pattern {:?}: source call #{} returns ErrorKind::Interrupted once -> verdict {} with {} sink bytes (fault-free: {} bytes)",
+                            c.entry,
+                            c.data.len(),
+                            hex_prefix(&c.data, 32),
+                            c.pattern,
+                            k,
+                            o.verdict.brief(),
+                            o.out.len(),
+                            good.len()
+                        ),
+                    );
+                }
+                continue;
+            }
             let (sink, rd) = match &f {
+                Fault::SourceInterrupted { .. } => unreachable!(),
                 Fault::SinkAt(k) => (SinkCfg { fail_write_at: Some(*k), ..Default::default() }, None),
                 Fault::SinkAtShort { k, max } => (
                     SinkCfg { fail_write_at: Some(*k), max_per_write: vec![*max], ..Default::default() },
@@ -309,7 +406,7 @@ impl Property for C12 {
             };
             let o = run_entry(c, &sink, rd);
             let pos = match &f {
-                Fault::SinkAt(k) | Fault::SinkAtShort { k, .. } | Fault::SourceAt { k, .. } => *k,
+                Fault::SinkAt(k) | Fault::SinkAtShort { k, .. } | Fault::SourceAt { k, .. } | Fault::SourceInterrupted { k } => *k,
                 _ => 1,
             };
             if pos >= 1 {
@@ -355,6 +452,7 @@ impl Property for C12 {
                         );
                     }
                 }
+                Fault::SourceInterrupted { .. } => {}
                 Fault::ShortWrites(_) => {
                     st.class("fault:short-writes");
                     if !o.verdict.is_ok() || o.out != good {
